@@ -25,8 +25,9 @@ class FakeVersionInfo(tuple):
 
 class FakeSys:
     def __init__(self, major, minor):
-        self.version_info = FakeVersionInfo((major, minor, 0, "final", 0))
-        self.hexversion = (major << 24) | (minor << 16) | 0xF0
+        # micro / release level / serial are the same for every simulated interpreter: only major and minor vary
+        self.version_info = FakeVersionInfo((major, minor, 1, "final", 0))
+        self.hexversion = (major << 24) | (minor << 16) | (1 << 8) | 0xF0
         self.version = f"{major}.{minor}.0 (simulated)"
 
 
